@@ -19,7 +19,17 @@ Definition table : list (string * fam * fam) := [
   ("with", F 2 1 2 1, F 2 1 2 2); ("lam", F 2 2 2 2, F 2 2 2 2); ("formals", F 2 2 2 2, F 2 2 2 2); ("let", F 4 1 3 1, F 4 1 3 1);
   ("paren", F 1 1 1 1, F 1 1 1 1); ("if", F 3 1 3 1, F 3 1 3 1); ("assert", F 2 1 2 1, F 2 1 2 1); ("binop", F 4 1 4 1, F 4 1 4 1);
   ("update", F 4 1 4 1, F 4 1 4 1); ("call", F 3 1 3 1, F 3 1 3 1); ("not", F 2 1 2 1, F 2 1 2 1); ("select", F 2 1 2 1, F 2 1 2 1);
-  ("inherit", F 3 2 3 2, F 3 2 3 2)]%string.
+  ("inherit", F 3 2 3 2, F 3 2 3 2);
+  (* calls written without whitespace and other argument shapes; operator chains with the line break after / before the
+     operator; remaining operand positions; multi-line heads *)
+  ("call_tight", F 3 1 3 1, F 3 1 3 1); ("call_set_tight", F 4 1 4 1, F 4 1 4 1); ("call_list_tight", F 3 1 2 1, F 3 1 2 1);
+  ("call_set", F 4 1 4 1, F 4 1 4 1); ("call_list", F 3 1 2 1, F 3 1 2 1);
+  ("concat_nl", F 5 2 5 2, F 5 2 5 2); ("concat_chain_r", F 3 2 3 2, F 3 2 3 2); ("update_chain_r", F 3 2 3 2, F 3 2 3 2); ("impl_chain_r", F 3 2 3 2, F 3 2 3 2);
+  ("concat_chain", F 3 1 3 1, F 3 1 3 1); ("binop_chain_l", F 3 1 3 1, F 3 1 3 1); ("concat_nl_before", F 3 1 2 1, F 3 1 2 1);
+  ("if_else", F 3 1 3 1, F 3 1 3 1); ("if_cond", F 3 1 3 1, F 3 1 3 1); ("let_bind", F 4 1 4 1, F 4 1 4 1); ("with_env", F 2 1 2 1, F 2 1 2 1);
+  ("formal_default", F 4 1 4 1, F 4 1 4 1); ("select_default", F 3 1 3 1, F 3 1 3 1); ("attr_interp", F 2 1 2 1, F 2 1 2 1);
+  ("neg", F 2 1 2 1, F 2 1 2 1); ("has", F 2 1 2 1, F 2 1 2 1);
+  ("lam_nl", F 2 2 2 2, F 2 2 2 2); ("with_nl", F 2 2 2 2, F 2 2 2 2); ("let_ml", F 4 1 3 1, F 4 1 3 1)]%string.
 Definition lookup (name : string) (ml : bool) : option fam :=
   match find (fun r => String.eqb (fst (fst r)) name) table with Some (_, a, m) => Some (if ml then m else a) | None => None end.
 
@@ -47,10 +57,11 @@ Theorem lam_family_not_polynomial : forall k c, exists n, c * (S n) ^ k < cost (
 Proof.
   intros k c. destruct (exp_beats_poly k c) as [n Hn]. exists n. rewrite lam_is_cost_model. pose proof (calls_lam_ge n). lia.
 Qed.
-(* every family of the table with multiplicity one is linear; the others are listed: lam, formals, inherit (src), and
-   `with` over a multi-line body *)
+(* every family of the table with multiplicity one is linear; the others are listed: lam, formals, inherit (src),
+   `with` over a multi-line body or followed by a line break, a lambda colon followed by a line break, and binary
+   operators followed by a line break (right-nested chains) *)
 Definition doubling (r : string * fam * fam) : bool := Nat.eqb (mult (snd (fst r))) 2 || Nat.eqb (mult (snd r)) 2.
-Example doubling_families : map (fun r => fst (fst r)) (filter doubling table) = ["with"; "lam"; "formals"; "inherit"]%string.
+Example doubling_families : map (fun r => fst (fst r)) (filter doubling table) = ["with"; "lam"; "formals"; "inherit"; "concat_nl"; "concat_chain_r"; "update_chain_r"; "impl_chain_r"; "lam_nl"; "with_nl"]%string.
 Proof. reflexivity. Qed.
 Print Assumptions linear_family.
 Print Assumptions lam_family_not_polynomial.
